@@ -62,6 +62,7 @@ Print Assumptions C17_gate_atomic.
 Theorem C17_effect_newBug k idt gr st a user st' p : mutation_step k idt gr MNewBug st a user = (st', Ok p) ->
   exists u, user = Some u /\ memN u (st_idents st) = true /\ a_wf a = true /\ a_repo_ok a = true /\
     empty gr (cleanup1 (a_title a)) = false /\
+    a_files_ok a = true /\
     let new := [OCreate (fresh a 0) u (cleanup1 (a_title a)) (cleanup (a_msg a)) (a_files a)] in
     p_bug p = fresh a 0 /\
     st' = {| st_bugs := st_bugs st ++ [{| bg_id := fresh a 0; bg_ops := new |}]; st_idents := st_idents st; st_blobs := st_blobs st |} /\
@@ -71,6 +72,7 @@ Print Assumptions C17_effect_newBug.
 
 Theorem C17_effect_addComment k idt gr st a user st' p : mutation_step k idt gr MAddComment st a user = (st', Ok p) ->
   exists u, user = Some u /\ memN u (st_idents st) = true /\ resolve_m k idt MAddComment st a = Ok (TBug (p_bug p)) /\
+    a_files_ok a = true /\
     let new := [OComment (fresh a 0) u (cleanup (a_msg a)) (a_files a)] in
     st' = append_ops st (p_bug p) new /\ p_snap p = compile k (ops_of st (p_bug p) ++ new) /\ p_ops p = map op_id new.
 Proof. exact (effect_addComment k idt gr st a user st' p). Qed.
@@ -78,6 +80,7 @@ Print Assumptions C17_effect_addComment.
 
 Theorem C17_effect_addCommentAndClose k idt gr st a user st' p : mutation_step k idt gr MAddCommentAndClose st a user = (st', Ok p) ->
   exists u, user = Some u /\ memN u (st_idents st) = true /\ resolve_m k idt MAddCommentAndClose st a = Ok (TBug (p_bug p)) /\
+    a_files_ok a = true /\
     let new := [OComment (fresh a 0) u (cleanup (a_msg a)) (a_files a); OStatus (fresh a 1) u true] in
     st' = append_ops st (p_bug p) new /\ p_snap p = compile k (ops_of st (p_bug p) ++ new) /\ p_ops p = map op_id new.
 Proof. exact (effect_addCommentAndClose k idt gr st a user st' p). Qed.
@@ -85,6 +88,7 @@ Print Assumptions C17_effect_addCommentAndClose.
 
 Theorem C17_effect_addCommentAndReopen k idt gr st a user st' p : mutation_step k idt gr MAddCommentAndReopen st a user = (st', Ok p) ->
   exists u, user = Some u /\ memN u (st_idents st) = true /\ resolve_m k idt MAddCommentAndReopen st a = Ok (TBug (p_bug p)) /\
+    a_files_ok a = true /\
     let new := [OComment (fresh a 0) u (cleanup (a_msg a)) (a_files a); OStatus (fresh a 1) u false] in
     st' = append_ops st (p_bug p) new /\ p_snap p = compile k (ops_of st (p_bug p) ++ new) /\ p_ops p = map op_id new.
 Proof. exact (effect_addCommentAndReopen k idt gr st a user st' p). Qed.
@@ -92,6 +96,7 @@ Print Assumptions C17_effect_addCommentAndReopen.
 
 Theorem C17_effect_editComment k idt gr st a user st' p : mutation_step k idt gr MEditComment st a user = (st', Ok p) ->
   exists u, user = Some u /\ memN u (st_idents st) = true /\ exists c, resolve_m k idt MEditComment st a = Ok (TComment (p_bug p) c) /\
+    a_files_ok a = true /\
     let new := [OEdit (fresh a 0) u c (cleanup (a_msg a)) (a_files a)] in
     st' = append_ops st (p_bug p) new /\ p_snap p = compile k (ops_of st (p_bug p) ++ new) /\ p_ops p = map op_id new.
 Proof. exact (effect_editComment k idt gr st a user st' p). Qed.
@@ -183,10 +188,10 @@ Example C17_ex_refusals :
   mutation_step false ex_idt ex_gr MAddCommentAndClose ex_st ex_args None = (ex_st, Err ENotAuth) /\
   mutation_step false ex_idt ex_gr MAddCommentAndClose ex_st ex_args (Some 3) = (ex_st, Err ENotFound) /\
   mutation_step false ex_idt ex_gr MAddCommentAndClose ex_st
-    {| a_wf := true; a_repo_ok := true; a_prefix := [97]; a_title := []; a_msg := []; a_files := []; a_added := []; a_removed := []; a_fresh := [] |}
+    {| a_wf := true; a_files_ok := true; a_repo_ok := true; a_prefix := [97]; a_title := []; a_msg := []; a_files := []; a_added := []; a_removed := []; a_fresh := [] |}
     (Some 8) = (ex_st, Err EMultiple) /\
   snd (mutation_step false ex_idt ex_gr MSetTitle ex_st
-    {| a_wf := true; a_repo_ok := true; a_prefix := [97; 98]; a_title := [32; 1; 9]; a_msg := []; a_files := []; a_added := []; a_removed := []; a_fresh := [9] |}
+    {| a_wf := true; a_files_ok := true; a_repo_ok := true; a_prefix := [97; 98]; a_title := [32; 1; 9]; a_msg := []; a_files := []; a_added := []; a_removed := []; a_fresh := [9] |}
     (Some 8)) = Err EOther.
 Proof. vm_compute. auto. Qed.
 
